@@ -102,7 +102,7 @@ func leakReport(before, after map[int]string) string {
 type ctorCase struct {
 	name string
 	// run performs the constructor; it returns a cleanup for the success case and the error.
-	run func(env *ctorEnv) (cleanup func(), err error)
+	run    func(env *ctorEnv) (cleanup func(), err error)
 	emfile bool
 	// maxK bounds the EMFILE exploration (0 = default 8). The websocket handshakes are explored at k=0 only: with a
 	// larger budget the harness's own in-process server competes for the freed slots and the client would wait forever
@@ -757,14 +757,15 @@ func TestC13_RepeatedClose(t *testing.T) {
 type sentinel struct{ id int }
 
 //go:noinline
-func startOrphan(ioc *sonic.IO, rawLn *sysx.RawTCPListener, wantRead, wantWrite bool, readDone, writeDone, finalized *int32) (peer int, err error) {
+func startOrphan(ioc *sonic.IO, rawLn *sysx.RawTCPListener, wantRead, wantWrite bool, readDone, writeDone, finalized *int32) (peer int, fd int, err error) {
 	c, err := sonic.Dial(ioc, "tcp", rawLn.Addr())
 	if err != nil {
-		return -1, err
+		return -1, -1, err
 	}
 	p, err := rawLn.Accept(1000)
 	if err != nil {
-		return -1, err
+		_ = c.Close()
+		return -1, -1, err
 	}
 	if wantRead {
 		s := &sentinel{1}
@@ -790,7 +791,7 @@ func startOrphan(ioc *sonic.IO, rawLn *sysx.RawTCPListener, wantRead, wantWrite 
 			runtime.KeepAlive(s)
 		})
 	}
-	return p, nil
+	return p, c.RawFd(), nil
 }
 
 func TestC13_OwnerStaysAlive(t *testing.T) {
@@ -813,11 +814,14 @@ func TestC13_OwnerStaysAlive(t *testing.T) {
 		}
 		gcPoint := rapid.SampledFrom([]string{"before-any-completion", "after-read-completed", "after-write-completed"}).Draw(rt, "gcPoint")
 		var readDone, writeDone, finalized int32
-		peer, err := startOrphan(ioc, rawLn, wantRead, wantWrite, &readDone, &writeDone, &finalized)
+		peer, orphanFd, err := startOrphan(ioc, rawLn, wantRead, wantWrite, &readDone, &writeDone, &finalized)
 		if err != nil {
 			rt.Fatalf("INFRA: %v", err)
 		}
 		defer sysx.Reset(peer)
+		// nobody can Close the orphan (no reference is kept, that is the point): release its descriptor by number when the
+		// case is over, otherwise every case leaks one and a long run climbs past descriptor 1023
+		defer syscall.Close(orphanFd)
 		if wantRead && readDone != 0 || wantWrite && writeDone != 0 {
 			rt.Fatalf("INFRA: operations were not deferred")
 		}
@@ -1011,6 +1015,7 @@ func TestC13_RepeatedCloseAndOrphan(t *testing.T) {
 			rt.Fatalf("INFRA: %v", err)
 		}
 		defer sysx.Reset(peer)
+		defer syscall.Close(fdB) // the orphan cannot be closed through a reference; see TestC13_OwnerStaysAlive
 		reused := fdB == fdA
 		closes := rapid.IntRange(1, 2).Draw(rt, "moreCloses")
 		for i := 0; i < closes; i++ {
